@@ -397,6 +397,8 @@ func runC13(e *Engine, r *Report) {
 		r.floor("VAL-frame-delivery", n, 1)
 	}
 	ruleCodecLenPrefix(e, r, 20, "raftpb", "sovRaft")
+	ruleCodecThresholds(e, r, 3, "raftpb", [][2]string{{"(*raftpb.Entry).Size", "(*raftpb.Entry).marshalTo"}, {"(*raftpb.Entry).SizeUpperLimit", "(*raftpb.Entry).marshalTo"}})
+	ruleVarintLadder(e, r, "raftpb.sovRaft")
 }
 
 // fields of a type covered by the constant part of its SizeUpperLimit
